@@ -7,6 +7,7 @@ import (
 	"encoding/json"
 	"fmt"
 	"hash/fnv"
+	"os"
 	"runtime/debug"
 	"sort"
 	"strings"
@@ -29,13 +30,13 @@ func Violationf(kind, sig, format string, a ...any) *Violation {
 
 // Run is the context of one simulated execution.
 type Run struct {
-	Sim   *verifsim.Sim
-	T     *verifsim.Tape
-	S     *verifsim.Tape
-	Tier  string
-	Prop  string
-	Seed  uint64
-	Trace []string
+	Sim     *verifsim.Sim
+	T       *verifsim.Tape
+	S       *verifsim.Tape
+	Tier    string
+	Prop    string
+	Seed    uint64
+	Trace   []string
 	Tracing bool
 
 	Counters map[string]uint64
@@ -48,8 +49,13 @@ func (r *Run) Logf(format string, a ...any) {
 	if !r.Tracing || len(r.Trace) > 4000 {
 		return
 	}
-	r.Trace = append(r.Trace, fmt.Sprintf(format, a...))
+	// formatting may call String() methods of library types, which pass yield points:
+	// render inside Quiet so that tracing never advances the logical clock
+	r.Sim.Quiet(func() { r.Trace = append(r.Trace, fmt.Sprintf(format, a...)) })
 }
+
+// Quiet runs trace / sample rendering code without perturbing the simulation.
+func (r *Run) Quiet(f func()) { r.Sim.Quiet(f) }
 
 func (r *Run) Count(name string) { r.CountN(name, 1) }
 func (r *Run) CountN(name string, n uint64) {
@@ -92,6 +98,9 @@ func (r *Run) Digest() uint64 {
 	h.Write([]byte("|"))
 	for _, v := range r.S.Rec {
 		fmt.Fprintf(h, "%d,", v)
+	}
+	if os.Getenv("VERIF_DEBUG_DIGEST") != "" {
+		fmt.Fprintf(os.Stderr, "digest parts: tapes=%x obs=%x steps=%d sched=%x lenT=%d lenS=%d\n", h.Sum64(), r.obs, r.Sim.Steps, r.Sim.SchedHash, len(r.T.Rec), len(r.S.Rec))
 	}
 	return verifsim.Mix(h.Sum64(), r.obs, r.Sim.Steps, r.Sim.SchedHash)
 }
